@@ -102,6 +102,8 @@ def refute(expr, domain=None, seed=0, n_points=3, points=None):
         return None
     if expr.is_number:
         v = sp.N(expr, 50)
+        if v.has(sp.nan, sp.zoo) or not v.is_comparable:
+            return None                  # not a number the refuter can judge (0/0 at a removable singularity): left to the proof
         if abs(v) > sp.Float("1e-30"):
             return {}, v
         return None
